@@ -26,8 +26,8 @@ MANIFEST = dict(
         design="5/C01")
 
 CFG = {
-    "quick":    dict(mc="MC_CobsEnc.cfg",   gen="Gen_CobsEnc.cfg",   nmsg=260,  full=False),
-    "thorough": dict(mc="MC_CobsEnc_t.cfg", gen="Gen_CobsEnc_t.cfg", nmsg=2500, full=True),
+    "quick":    dict(mc="MC_CobsEnc.cfg",   gen="Gen_CobsEnc.cfg",   nmsg=260,  full=False, nbulk=150),
+    "thorough": dict(mc="MC_CobsEnc_t.cfg", gen="Gen_CobsEnc_t.cfg", nmsg=2500, full=True, nbulk=1500),
 }
 KINDS = ["cobs", "cobs_r", "zpe", "zpe_r", "cmd"]
 
@@ -213,7 +213,8 @@ def prod_behaviours(ck, msgs):
         for kind in KINDS:
             mm = [b if b else 1 for b in m] if (kind == "cmd" and rng.random() < 0.85) else m
             path = rng.choice(["array", "array", "queue", "direct"])
-            arg = {"kind": kind, "m": 0, "path": path, "pre": rng.choice([0, 0, 3, 70]), "msg": mm}
+            arg = {"kind": kind, "m": 0, "path": path, "pre": rng.choice([0, 0, 3, 70, 200]), "msg": mm}
+            arg["consumed"] = rng.choice([0, 0, arg["pre"], arg["pre"] // 2]) if path != "direct" else 0
             arg["cap"] = rng.choice([0, 1, 2, 16, 64, 300]) if path != "array" else 0
             beh = [{"a": "einit", "arg": arg}]
             left = len(mm)
@@ -236,6 +237,34 @@ def prod_behaviours(ck, msgs):
                 n += 1
             beh.append({"a": "fin", "arg": {"x": 0}})
             behs.append(beh)
+    return behs
+
+
+def bulk_behaviours(ck, n):
+    """Output buffer in use: an earlier frame (partly or wholly consumed by the
+    reader) sits in front of the encoder area and a long message is handed over
+    in ONE push, so that mpt_array_push has to take it in many installments
+    while it enlarges the buffer (queue path: ring offset > 0, wrapped content,
+    the driver re-offers).  Call sequences only."""
+    rng = ck.rng
+    behs = []
+    for i in range(n):
+        kind = KINDS[i % len(KINDS)]
+        path = "array" if (i // len(KINDS)) % 3 != 2 else "queue"
+        pre = rng.choice([40, 130, 300, 700, 1500])
+        consumed = rng.choice([pre, pre, pre // 2, rng.randrange(pre + 1)])
+        ln = rng.choice([70, 200, 400, 700, 1100, 2500])
+        zero_every = rng.choice([0, 0, 3, 31, 100, 254]) if kind != "cmd" else 0
+        base = rng.randrange(1, 200)
+        msg = [0 if (zero_every and j % zero_every == zero_every - 1) else 1 + ((base + j * 7) % 255) for j in range(ln)]
+        arg = {"kind": kind, "m": 0, "path": path, "pre": pre, "consumed": consumed, "msg": msg,
+               "cap": rng.choice([0, 16, 64]) if path == "queue" else 0}
+        beh = [{"a": "einit", "arg": arg}]
+        if rng.random() < 0.25:          # a short push first, then the rest at once
+            beh.append({"a": "push", "arg": {"k": rng.choice([1, 5, 63, 64, 65])}})
+        beh.append({"a": "push", "arg": {"k": ln}})
+        beh.append({"a": "fin", "arg": {"x": 0}})
+        behs.append(beh)
     return behs
 
 
@@ -294,7 +323,21 @@ def nontrivial_enc(beh, rs):
     refused = any((r.get("obs") or {}).get("ret") == "nobuf" or
                   ((r.get("obs") or {}).get("n", 0) < (r.get("obs") or {}).get("k", 0)) for r in rs if r.get("a") == "push")
     pushes = sum(1 for s in beh if s["a"] == "push")
-    return bool(structure and (refused or pushes > 1))
+    inst = max([(r.get("dbg") or {}).get("inst_max", 0) for r in rs] or [0])
+    return bool(structure and (refused or pushes > 1 or inst >= 2))
+
+
+def installments(recs):
+    """how many caller-level pushes the encoder took in 1, 2, >=3 installments (dbg only)"""
+    h = {"1": 0, "2": 0, ">=3": 0, "max": 0}
+    for r in recs:
+        if r.get("a") != "push":
+            continue
+        i = (r.get("dbg") or {}).get("inst", 0)
+        if i >= 1:
+            h["1" if i == 1 else "2" if i == 2 else ">=3"] += 1
+            h["max"] = max(h["max"], i)
+    return h
 
 
 def run(tier):
@@ -347,7 +390,7 @@ def run(tier):
 
     # 3. binding B: production block sizes through the public paths, judged by TLC
     msgs = run_structured(ck.rng, cfg["full"], cfg["nmsg"])
-    pb = prod_behaviours(ck, msgs)
+    pb = prod_behaviours(ck, msgs) + bulk_behaviours(ck, cfg["nbulk"])
     precs, _ = vlib.run_driver(exe, vlib.to_script(pb), timeout=1200)
     precs = [norm(r) for r in precs]
     pev = events_of(pb, precs)
@@ -356,6 +399,7 @@ def run(tier):
     ck.cov["evaluations"] += len(pb)
     ck.notes["production_traces"] = len(pb)
     ck.notes["production_events"] = total
+    ck.notes["production_push_installments"] = installments(precs)
     by2 = vlib.group_records(precs)
     for b, beh in enumerate(pb):
         if nontrivial_enc(beh, by2.get(b, [])):
